@@ -28,6 +28,9 @@ CORPUS = [
     {'name': 'a[mV] + b[volt]', 'tree': [4, [3, 6], [3, 3]], 'target': None},
     {'name': 'a[mV]*a, unevaluated, to mV**2', 'tree': [5, [3, 6], [3, 6]], 'target': {1: 2}},
     {'name': 'a**(_1 + _2) to volt**3', 'tree': [6, [3, 6], [4, Q(1, 1), Q(2, 2)]], 'target': {0: 3}},
+    {'name': 'SymPy Piecewise recursion', 'target': None,
+     'tree': [13, [[7, 43, Q(0, 2)], [9, 0, [4, [3, 30], [5, [0, 0, F(-1)], [3, 29]]], [4, Q(1, F(1, 2), 9), [3, 27]]]],
+              [[3, 0], [11]]]},
 ]
 
 
@@ -93,17 +96,21 @@ def value_findings(eff, out, scale, seed):
     pts = []
     for _ in range(3):
         vals, dv = uc.valuation(rng)
-        s = _eval(uc.eval_si, eff, vals, dv)
-        n = _eval(uc.eval_n, out, vals, dv)
-        pts.append(n)
-        if res or (n is None and s is None):
+        if not uc.stable_point(eff, vals, dv) or not uc.stable_point(out, vals, dv):
+            pts.append('skip')
             continue
-        if n is None or s is None:
-            res.append(('value', 'defined in only one reading: converted %r, SI value of the input %r' % (n, s)))
+        s = uc.try_eval(uc.eval_si, eff, vals, dv)
+        n = uc.try_eval(uc.eval_n, out, vals, dv)
+        pts.append(n)
+        if res or s is None:
+            continue        # where the input has no real value there is nothing to preserve (SymPy may even extend
+            #                 the domain when it re-evaluates: (x**0.5)**2 -> x)
+        if n is None:
+            res.append(('value', 'the converted expression has no value where the input has: SI value %r' % (s,)))
         elif isinstance(n, bool) or isinstance(s, bool):
             if n != s:
                 res.append(('value', 'converted condition is %r, the input in SI is %r' % (n, s)))
-        elif not (uc.close(n * scale, s, 1e-7) or abs(n * scale - s) < 1e-290):
+        elif not uc.same_value(s / scale, n):
             res.append(('value', 'converted value %r x scale %r = %r but the input is %r in SI'
                         % (n, scale, n * scale, s)))
     return res, pts
@@ -126,13 +133,21 @@ def work(case):
     seed = zlib.crc32(repr((case['tree'], case['target'])).encode())
     try:
         new_expr, flag, units = U._calculator.convert_expression_recursively(expr, to)
-        out = R.reify(new_expr)
+        ok = True
+    except Exception as e:
+        ok = False
+        res['impl'] = ['err', vlib.err_class(e), str(e)[:120]]
+    if ok:
+        try:
+            out = R.reify(new_expr)
+        except uc.bridge.Unsupported as e:      # SymPy re-evaluation left the real numbers ((-1)**0.5 -> I)
+            return {'skip': 'result not reifiable: ' + repr(e)[:100]}
         sc, dims = W.unit_obs(units)
+        if not 1e-250 < sc < 1e250:
+            return {'skip': 'scale out of float range'}
         res['impl'] = ['ok', bool(flag), sc, dims]
         res['out'] = uc.tree_json(out)
         res['same'] = new_expr is expr
-    except Exception as e:
-        res['impl'] = ['err', vlib.err_class(e), str(e)[:120]]
     if res['impl'][0] == 'ok':
         f, pts = value_findings(eff, out, sc, seed)
         findings += f
@@ -144,6 +159,8 @@ def work(case):
             findings.append(('units', 'returned units %s are not the requested %s' % (units, to)))
         # strict inference of the result
         parts = list(new_expr.args) if new_expr.is_Relational else ([] if new_expr.is_Boolean else [new_expr])
+        if new_expr == 0:
+            parts = []      # SymPy cancelled everything (x - x): 0 has the same value in every unit
         for p in parts:
             try:
                 u2 = U.evaluate_units(p)
@@ -155,6 +172,7 @@ def work(case):
                     res['strict_unsupported'] = True     # Max / Min / Mod ...: strict inference has no rule at all
                 else:
                     findings.append(('strict', 'evaluate_units(result) raises %s' % vlib.err_class(e)))
+                    res['strict_err'] = vlib.err_class(e)
                 break
         if new_expr.is_Relational and len(findings) == 0:
             try:
@@ -195,7 +213,9 @@ def work(case):
 
 def safe_work(case):
     try:
-        return vlib.with_alarm(60, work, case)
+        return vlib.with_alarm(20, work, case)
+    except vlib.Timeout:
+        return {'skip': 'timeout (SymPy)'}
     except Exception as e:
         return {'skip': 'harness: ' + repr(e)[:300]}
 
@@ -207,6 +227,8 @@ def compare(r, mod, seed):
     if tag == 3:
         return 'unsupported'
     if tag == 0:
+        if impl[0] == 'err' and impl[1] == 'RecursionError':
+            return 'unsupported'     # SymPy's re-evaluation of the rebuilt Piecewise diverges (known finding)
         if impl[0] != 'ok':
             return 'model: converts, implementation raised %s' % impl[1]
         if bool(mod[2]) != impl[1]:
@@ -219,10 +241,10 @@ def compare(r, mod, seed):
         for k in range(3):
             vals, dv = uc.valuation(rng)
             a = _eval(uc.eval_n, mt, vals, dv)
-            b = r['pts'][k] if k < len(r['pts']) else None
-            if a is None and b is None:
+            b = r['pts'][k]
+            if b == 'skip' or (a is None and b is None):
                 continue
-            if a is None or b is None or not (uc.close(a, b, 1e-7) or (not isinstance(a, bool) and abs(a - b) < 1e-290)):
+            if a is None or b is None or not uc.same_value(a, b):
                 return 'converted expression: model value %r, implementation value %r' % (a, b)
         return None
     if tag == 1:
@@ -258,7 +280,7 @@ def evaluate(ctx, cases, results, use_model=True):
         for what, text in r['findings']:
             ctx.violation('C05 %s: %s' % (what, text),
                           {'tree': r['eff'], 'target': c['target'], 'name': c.get('name'), 'kind': c['kind'],
-                           'impl': impl, 'out': r.get('out'), 'detail': {'kind': what}})
+                           'impl': impl, 'out': r.get('out'), 'detail': {'kind': what, 'err': r.get('strict_err') or (impl[1] if impl[0] == 'err' else None)}})
         if mods is not None:
             ctx.corr_cases += 1
             m = mods[i]
@@ -285,7 +307,7 @@ def corpus_cases():
 
 
 def run(ctx):
-    n = 300 if ctx.tier == 'quick' else 4000
+    n = 700 if ctx.tier == 'quick' else 8000
     ctx.rule = ('the C04 generator (random SymPy trees, depth <= 5, 21 units of 12 atoms in a real cellmlmanip Model, '
                 'siblings of sums/piecewise/relations in the same dimension and mostly different scales) x targets '
                 '{None, natural unit, two rescaled variants, a unit of another dimension}, plus every single-leaf unit '
@@ -338,6 +360,20 @@ def result_has_compound_exponent(case):
         uc.has_compound_exponent(uc.tree_unjson(case['out']))
 
 
+def result_magnitude_exception(case):
+    """strict inference of the result raises a Python arithmetic exception (C04 magnitude-arithmetic-exception)"""
+    return _kind(case) == 'strict' and case.get('detail', {}).get('err') in (
+        'ZeroDivisionError', 'Other:OverflowError', 'TypeError')
+
+
+def piecewise_rebuild_recursion(case):
+    """expr.func(*new_args) on a Piecewise whose condition was converted: SymPy's Piecewise.eval recurses forever"""
+    return _kind(case) == 'exception' and case.get('detail', {}).get('err') == 'RecursionError' and \
+        any(s[0] == 13 for s in uc.subtrees(uc.tree_unjson(case['tree'])))
+
+
 KNOWN_PREDICATES = {'floor_ceiling_converted': floor_ceiling_converted,
+                    'piecewise_rebuild_recursion': piecewise_rebuild_recursion,
+                    'result_magnitude_exception': result_magnitude_exception,
                     'mul_rebuilt_identity': mul_rebuilt_identity,
                     'result_has_compound_exponent': result_has_compound_exponent}
